@@ -73,6 +73,29 @@ func checkVia(e *env, tu *ketoapi.RelationTuple, depth int) string {
 	return fmt.Sprintf("%s %d", memTok(res.Membership), er)
 }
 
+// stressCheck repeats one check reps times from par goroutines and counts the answers that differ from want:
+// an answer that depends on the goroutine schedule shows up as a rare deviation
+func stressCheck(e *env, q *ketoapi.RelationTuple, depth int, want string, reps, par int) int {
+	var wg sync.WaitGroup
+	var mu sync.Mutex
+	dev := 0
+	for g := 0; g < par; g++ {
+		wg.Add(1)
+		go func() {
+			defer wg.Done()
+			for i := 0; i < reps/par; i++ {
+				if got := checkVia(e, q, depth); got != want {
+					mu.Lock()
+					dev++
+					mu.Unlock()
+				}
+			}
+		}()
+	}
+	wg.Wait()
+	return dev
+}
+
 func listAll(e *env, v url.Values, size int) string {
 	var all []string
 	tok := ""
@@ -261,6 +284,7 @@ func suiteConc(t *testing.T, cfg cfgT) {
 	r := newRng(cfg.seed)
 	G := 8
 	cases := 0
+	rounds := 0
 	for cases < cfg.n {
 		hr := r.fork()
 		allowNot := hr.chance(1, 2)
@@ -387,6 +411,33 @@ func suiteConc(t *testing.T, cfg cfgT) {
 			}
 			cases++
 		}
+		// schedule stress: a few checks (positive ones first) repeated thousands of times from several goroutines
+		if rounds < 1 {
+			picked := 0
+			for pass := 0; pass < 2 && picked < 5; pass++ {
+				for i, q := range reqs {
+					if q.kind != "echeck" || picked >= 5 {
+						continue
+					}
+					if (pass == 0) != (alone[i] == "is 0") {
+						continue
+					}
+					if alone[i] != "is 0" && alone[i] != "not 0" {
+						continue
+					}
+					dev := stressCheck(b, q.tuple, q.depth, alone[i], 1200, 8)
+					verdict := "same"
+					if dev > 0 {
+						verdict = fmt.Sprintf("diff %d-of-1200-repetitions-answered-differently-from-%s", dev, strings.ReplaceAll(alone[i], " ", "_"))
+					}
+					out.emit(fmt.Sprintf("conc stress %s %d", fmtTuple(q.tuple), q.depth), verdict)
+					out.stat("stress")
+					picked++
+					cases++
+				}
+			}
+		}
+		rounds++
 		// mixed read/write phase (for the race detector; SQLite may refuse concurrent writers, answers are not compared)
 		var wg2 sync.WaitGroup
 		for g := 0; g < 6; g++ {
